@@ -6,7 +6,7 @@
       tol  : z | n:p/q                     tolerance (z = None)
       spec : I <val> | F ref j | F cat k j*k | F add a b | F sum k j*k | F cnt k j*k | F idx r row col
              | R <rows> <cols> j*(rows*cols)
-             | X <exc|nimpl> <val> k j*k   a formula pycel cannot evaluate (raises after its k precedents were
+             | X <exc|nimpl|unk> <val> k j*k   a formula pycel cannot evaluate (raises after its k precedents were
                                            evaluated); <val> = the result Excel stored for it
       P i v : the stored result of node i is replaced by v (z = no stored result)
       T i t : t = the text of the formula of node i (for the "No Orig data?" rule)
@@ -58,7 +58,8 @@ partial def parseNodes : Nat → List String → Option (List Node × List Strin
           let (js, rest) ← takeNats (r*c) rest
           some ({ spec := .rng (chunk c r js) }, rest)
       | "X" :: cls :: v :: k :: rest => do
-          let cl ← (if cls = "exc" then some Fail.exc else if cls = "nimpl" then some Fail.notImpl else none)
+          let cl ← (if cls = "exc" then some Fail.exc else if cls = "nimpl" then some Fail.notImpl
+                    else if cls = "unk" then some Fail.unknownFn else none)
           let v ← Val.dec? v
           let (js, rest) ← takeNats (← k.toNat?) rest
           some ({ spec := .fml (.cat js), raises := some (cl, v) }, rest)
@@ -130,8 +131,8 @@ def handle : List String → String
             let keys := sortNats (fin.rep.mismatch.map (·.1)).eraseDups
             let ms := keys.filterMap fun a =>
               (fin.rep.lookup a).map fun (o, c) => s!"{a}:{encEV o}:{encEV c}"
-            let xs := sortNats ((fin.rep.failed.filter fun e => e.2 == Fail.exc).map (·.1))
-            let ns := sortNats ((fin.rep.failed.filter fun e => e.2 == Fail.notImpl).map (·.1))
+            let xs := sortNats ((fin.rep.failed.filter fun e => !e.2.isNotImplemented).map (·.1))
+            let ns := sortNats ((fin.rep.failed.filter fun e => e.2.isNotImplemented).map (·.1))
             " ".intercalate ("M" :: ms) ++ ";" ++ " ".intercalate ("X" :: xs.map toString) ++ ";" ++
               " ".intercalate ("N" :: ns.map toString)
           | _, _ => "!bad-tail"
